@@ -8,6 +8,9 @@
 //   F <L|F> <reader delay ms> <r<size>|f<size>,...>   memory buffers (r) and file buffers (f, sent with sendfile) mixed; the peer starts reading
 //        after the delay, so large buffers really block
 //     -> F bytes=... content=... calls=... p=... twice=...  (as X)
+//   G <threads> <writes per thread> <size> [<reader delay ms>]   several foreign threads write concurrently on one connection
+//     -> G bytes=<received> whole=<complete buffers in the stream> torn=<1 if a buffer is interleaved/corrupt> misordered=<buffers out of their
+//            thread's issue order> fulfilled=<promises fulfilled with the full size> other=<rejected or wrong value>
 //   E <busy ms> <size>                    A's write of <size> bytes is blocked; while the worker is busy for <busy ms> in another connection's
 //        handler, A sends bytes and starts reading, so its descriptor becomes readable and writable in the same poll result
 //     -> E bytes=<received> content=<1|0> p=<value|R|P>
@@ -126,6 +129,37 @@ public:
                 std::thread(issue).detach();
             else
                 issue();
+        }
+        else if (cmd.rfind("multi", 0) == 0)
+        {
+            // multi <threads> <writes> <size>: several foreign threads write concurrently on this connection
+            int nt = 0, nw = 0, sz = 0;
+            sscanf(cmd.c_str(), "multi %d %d %d", &nt, &nw, &sz);
+            auto tr = transport();
+            int pfd = peer->fd();
+            for (int tt = 0; tt < nt; ++tt)
+                std::thread([=] {
+                    for (int i = 0; i < nw; ++i)
+                    {
+                        char head[32];
+                        int hl = snprintf(head, sizeof head, "[%02d:%04d:%07d]", tt, i, sz);
+                        std::string data(head, static_cast<size_t>(hl));
+                        data.append(static_cast<size_t>(sz), static_cast<char>('a' + tt));
+                        tr->asyncWrite(pfd, RawBuffer(data, data.size()), MSG_NOSIGNAL)
+                            .then(
+                                [=](ssize_t v) {
+                                    std::lock_guard<std::mutex> g(g_res.m);
+                                    if (v == static_cast<ssize_t>(data.size()))
+                                        ++g_res.settles[0];
+                                    else
+                                        ++g_res.settles[1];
+                                },
+                                [](std::exception_ptr) {
+                                    std::lock_guard<std::mutex> g(g_res.m);
+                                    ++g_res.settles[1];
+                                });
+                    }
+                }).detach();
         }
         else if (cmd.rfind("sleep", 0) == 0)
         {
@@ -300,6 +334,70 @@ static std::string handle(const std::string& line)
         }
         os << " twice=" << twice;
     }
+    else if (t[0] == "G")
+    {
+        // G <threads> <writes per thread> <size> <reader delay ms>
+        int nt = atoi(t[1].c_str()), nw = atoi(t[2].c_str()), sz = atoi(t[3].c_str());
+        int delay = t.size() > 4 ? atoi(t[4].c_str()) : 0;
+        ::close(a); // the connection opened above asked for "go": use a fresh one
+        {
+            std::lock_guard<std::mutex> g(g_res.m);
+            g_res.settles.assign(2, 0);
+        }
+        int c = pv::connect_loopback(port);
+        pv::send_all(c, "multi " + std::to_string(nt) + " " + std::to_string(nw) + " " + std::to_string(sz));
+        std::this_thread::sleep_for(std::chrono::milliseconds(delay));
+        size_t each = 17 + static_cast<size_t>(sz);
+        size_t want = each * static_cast<size_t>(nt) * static_cast<size_t>(nw);
+        std::string got;
+        pv::read_until(c, got, [&](const std::string& x) { return x.size() >= want; }, 8000);
+        // the stream must be whole buffers one after the other, each exactly once, per thread in issue order
+        std::vector<int> next(static_cast<size_t>(nt), 0);
+        size_t pos = 0;
+        int whole = 0, torn = 0, order = 0;
+        while (pos + 17 <= got.size())
+        {
+            int tt = -1, i = -1, bs = -1;
+            if (sscanf(got.c_str() + pos, "[%2d:%4d:%7d]", &tt, &i, &bs) != 3 || got[pos] != '[' || got[pos + 16] != ']' || tt < 0 || tt >= nt || bs != sz)
+            {
+                ++torn;
+                break;
+            }
+            if (pos + 17 + static_cast<size_t>(bs) > got.size())
+                break;
+            bool clean = true;
+            for (size_t k = 0; k < static_cast<size_t>(bs); ++k)
+                if (got[pos + 17 + k] != static_cast<char>('a' + tt))
+                {
+                    clean = false;
+                    break;
+                }
+            if (!clean)
+            {
+                ++torn;
+                break;
+            }
+            if (i != next[static_cast<size_t>(tt)])
+                ++order;
+            next[static_cast<size_t>(tt)] = i + 1;
+            ++whole;
+            pos += 17 + static_cast<size_t>(bs);
+        }
+        for (int k = 0; k < 200; ++k)
+        {
+            {
+                std::lock_guard<std::mutex> g(g_res.m);
+                if (g_res.settles[0] + g_res.settles[1] >= nt * nw)
+                    break;
+            }
+            std::this_thread::sleep_for(std::chrono::milliseconds(5));
+        }
+        std::lock_guard<std::mutex> g(g_res.m);
+        os << "G bytes=" << got.size() << " whole=" << whole << " torn=" << torn << " misordered=" << order
+           << " fulfilled=" << g_res.settles[0] << " other=" << g_res.settles[1];
+        ::close(c);
+        a = -1;
+    }
     else if (t[0] == "E")
     {
         // A's big write is blocked (EAGAIN, write interest armed); while the worker is busy in another
@@ -365,7 +463,8 @@ static std::string handle(const std::string& line)
            << " a_value=" << (g_res.value[0] == static_cast<long>(total) ? 1 : 0);
         ::close(b);
     }
-    ::close(a);
+    if (a >= 0)
+        ::close(a);
     for (auto& f : g_files)
         if (!f.empty())
             ::unlink(f.c_str());
